@@ -20,6 +20,13 @@ def run(item):
         m = HistogramVectorizer(n_components=t["n"], strategy=t["strategy"], absolute_range=(fl(t["lo"]), fl(t["hi"])),
                                 append_outlier_bins=bool(t["outlier"]))
         try:
+            if fmt == "array":          # this object has a past: fitted on other data and used, then re-fitted
+                try:                    # (a past the configuration rejects - e.g. nothing inside the absolute range - is no past)
+                    past = [[float(v) + 0.25 for v in s][::-1] + [float(v) * 0.5 + 1.0 for v in s] for s in t["train"] + t["test"]]
+                    m.fit(past)
+                    m.transform(past[:1] + [[]])
+                except Exception:  # noqa
+                    pass
             r = m.fit(train)
             if r is not m:
                 fails.append({"what": "fit does not return self"})
